@@ -52,6 +52,27 @@ fn check1(n: usize, edges: &[(usize, usize)], label: &str) -> bool {
     true
 }
 
+/// large graphs: one access-declaration variant, reference ranks by a pass over a topological order
+fn check1_large(n: usize, edges: &[(usize, usize)], label: &str) -> bool {
+    ACC_VARIANT.with(|c| c.set(2));
+    let mut b = FnGraphBuilder::new();
+    let ids: Vec<FnId> = (0..n).map(|i| b.add_fn(Acc { id: i, reads: if i % 2 == 0 { vec![1] } else { vec![] }, writes: if i % 2 == 1 { vec![1] } else { vec![(i % 3) as u8] } })).collect();
+    for (k, &(x, y)) in edges.iter().enumerate() {
+        if k % 2 == 0 { b.add_logic_edge(ids[x], ids[y]).unwrap(); } else { b.add_contains_edge(ids[x], ids[y]).unwrap(); }
+    }
+    let g = b.build();
+    let got: Vec<usize> = g.ranks().iter().map(|r| r.0).collect();
+    // longest chains by relaxation until a fixpoint (at most n rounds)
+    let mut want = vec![0usize; n];
+    loop { let mut ch = false; for &(a, c) in edges { if want[c] < want[a] + 1 { want[c] = want[a] + 1; ch = true; } } if !ch { break; } }
+    if got != want {
+        let k = (0..n).find(|&i| got[i] != want[i]).unwrap();
+        println!("VIOLATION ({label}): n={n}: ranks()[{k}] = {} but the longest chain of user edges ending at {k} has {} edges", got[k], want[k]);
+        return false;
+    }
+    true
+}
+
 fn main() {
     // exhaustive: n <= 4, every subset of forward pairs under every node relabelling, two edge orders
     for n in 1..=4usize {
@@ -84,6 +105,22 @@ fn main() {
         for i in 0..n { for j in (i + 1)..n { if rng.below(100) < 45 { es.push((label[i], label[j])); } } }
         for i in (1..es.len()).rev() { let j = rng.below(i as u64 + 1) as usize; es.swap(i, j); }
         if !check(n, &es, "random") { std::process::exit(1); }
+    }
+    // large graphs: a chain of 700 functions (ranks up to 699), declared back to front; sparse random DAGs of 300 functions
+    {
+        let n = 700;
+        let es: Vec<(usize, usize)> = (0..n - 1).rev().map(|i| (i, i + 1)).collect();
+        if !check1_large(n, &es, "chain of 700, edges declared back to front") { std::process::exit(1); }
+        for round in 0..6 {
+            let n = 300;
+            let mut label: Vec<usize> = (0..n).collect();
+            for i in (1..n).rev() { let j = rng.below(i as u64 + 1) as usize; label.swap(i, j); }
+            let mut es = vec![];
+            for i in 0..n { for _ in 0..2 { let j = i + 1 + rng.below(12) as usize; if j < n { es.push((label[i], label[j])); } } }
+            es.sort(); es.dedup();
+            for i in (1..es.len()).rev() { let j = rng.below(i as u64 + 1) as usize; es.swap(i, j); }
+            if !check1_large(n, &es, &format!("sparse random DAG #{round} of 300 functions")) { std::process::exit(1); }
+        }
     }
     println!("OK: ranks() equals the longest chain on all explored graphs");
 }
